@@ -972,8 +972,7 @@ theorem gmFold_ok (st : St) (c : Client) (ks : List String) :
     obtain ⟨h1, h2⟩ := gmStep_ok st c c' a hf hP
     exact ih _ h1 h2
 
-theorem inv_getMany (st : St) (hinv : Inv st) (i : Nat) (ks : List String) : Inv (qstep st (.getMany i ks)).1 := by
-  simp only [qstep, step]
+theorem inv_getManyCore (st : St) (hinv : Inv st) (i : Nat) (ks : List String) : Inv (deliverAll (getManyCore st i ks).1) := by
   show Inv (deliverAll ({ st with cl := upd st.cl i (ks.foldl (gmStep st (st.cl i)) (st.cl i)) } : St))
   by_cases hs : (st.cl i).started = true
   · obtain ⟨⟨q1, q2, q3, q4⟩, hP⟩ := gmFold_ok st (st.cl i) ks (st.cl i) ⟨rfl, rfl, rfl, rfl⟩ (fun k' e he => hinv.2 i k' e hs he)
@@ -1005,11 +1004,13 @@ theorem inv_getMany (st : St) (hinv : Inv st) (i : Nat) (ks : List String) : Inv
       exact ⟨q1.trans (hinv.1 i).1, q2, q3, fun hs' => absurd hs' hs⟩
     · intro hs'; exact absurd hs' hs
 
+theorem inv_getMany (st : St) (hinv : Inv st) (i : Nat) (ks : List String) : Inv (qstep st (.getMany i ks)).1 :=
+  inv_getManyCore st hinv i ks
+
 /-- under agreement `get_many` answers what the server holds, key by key -/
-theorem getMany_eq_server (st : St) (ha : Agree st) (i : Nat) (ks : List String) :
-    (step st (.getMany i ks)).2 = .vals (ks.map (srvValue st)) := by
-  simp only [step]
-  congr 1
+theorem getManyCore_eq_server (st : St) (ha : Agree st) (i : Nat) (ks : List String) :
+    (getManyCore st i ks).2 = ks.map (srvValue st) := by
+  simp only [getManyCore]
   apply List.map_congr_left
   intro k _
   cases hs : (st.cl i).started with
@@ -1024,6 +1025,10 @@ theorem getMany_eq_server (st : St) (ha : Agree st) (i : Nat) (ks : List String)
       cases v with
       | val x => simp only [agreeEntry] at this; simp [this]
       | absent => simp only [agreeEntry] at this; simp [this]
+
+theorem getMany_eq_server (st : St) (ha : Agree st) (i : Nat) (ks : List String) :
+    (step st (.getMany i ks)).2 = .vals (ks.map (srvValue st)) := by
+  simp only [step, getManyCore_eq_server st ha i ks]
 
 /-- the full invariant carried along a history -/
 def Inv2 (st : St) : Prop := Inv st ∧ DomOK st.srv.ks
